@@ -1,6 +1,6 @@
 (* Properties/C10.v — the cargo features raw_strains and sync never change any result. *)
 From Coq Require Import String List Bool ZArith.
-From V Require Import F64 StrainsVec StrainsVecProofs Tables EffectsProofs Interleave InterleaveProofs.
+From V Require Import F64 StrainsVec StrainsVecProofs Tables EffectsProofs Interleave InterleaveProofs SumZero SumZeroProofs.
 Import ListNotations.
 Open Scope Z_scope.
 
@@ -61,3 +61,15 @@ Print Assumptions C10_no_conflict.
 Theorem C10_feature_sites : features_covered feature_sites = true.
 Proof. exact tables_features_covered. Qed.
 Print Assumptions C10_feature_sites.
+
+(* `sum` (the flashlight difficulty value): the raw_strains variant adds the +0.0 entries of the plain
+   vector, the compact variant skips its zero runs.  For every push sequence without a positive NaN the
+   two sums are the same float, or both are a zero (adding +0.0 leaves every binary64 accumulator
+   unchanged except that -0.0 becomes +0.0 - proved with Flocq) *)
+Theorem C10_raw_sum_equiv : forall pushes : list Z,
+  forallb push_ok pushes = true -> Z.of_nat (length pushes) < SIGN ->
+  let s := fst (StrainsVec.run sv_empty (map OPush pushes)) in
+  let r := fold_left raw_push pushes [] in
+  zsim (raw_sum r) (sum s).
+Proof. exact raw_sum_equiv. Qed.
+Print Assumptions C10_raw_sum_equiv.
